@@ -1198,6 +1198,10 @@ func TestE2Cluster(t *testing.T) {
 		c.Plan.Write(c.Dir)
 		os.Setenv("PATH", cl+":"+os.Getenv("PATH"))
 		defer os.Setenv("PATH", strings.TrimPrefix(os.Getenv("PATH"), cl+":"))
+		// (hook, build tag verif: nothing wakes the run loop when a cluster
+		// job ends; its fixed 3 s step would be nearly all of the run time)
+		os.Setenv("MRO_VERIF_STEP_MS", rapid.SampledFrom([]string{"40", "150"}).Draw(t, "stepMs"))
+		defer os.Unsetenv("MRO_VERIF_STEP_MS")
 		clusterArgs := []string{"--jobmode=" + filepath.Join(c.Dir, "slurm.template"), fmt.Sprintf("--maxjobs=%d", maxJobs), "--jobinterval=0"}
 		p, err := c.Start(clusterArgs...)
 		if err != nil {
@@ -1221,7 +1225,7 @@ func TestE2Cluster(t *testing.T) {
 				}
 			}
 		}
-		rc := waitOrStall(p, 45*time.Second, 400*time.Second)
+		rc := waitOrStall(p, 25*time.Second, 400*time.Second)
 		if rc == -1 && restarted {
 			if lost := lostSubmissions(c.PsDir()); len(lost) > 0 {
 				// mrp was killed after it had taken a job's
@@ -1530,6 +1534,8 @@ func TestKnownClusterJobLost(t *testing.T) {
 	os.Setenv("PATH", cl+":"+os.Getenv("PATH"))
 	defer os.Setenv("PATH", strings.TrimPrefix(os.Getenv("PATH"), cl+":"))
 	args := []string{"--jobmode=" + filepath.Join(c.Dir, "slurm.template"), "--maxjobs=2", "--jobinterval=0"}
+	os.Setenv("MRO_VERIF_STEP_MS", "100")
+	defer os.Unsetenv("MRO_VERIF_STEP_MS")
 	pr, err := c.Start(args...)
 	if err != nil {
 		t.Fatalf("INFRA: %v", err)
@@ -1541,7 +1547,7 @@ func TestKnownClusterJobLost(t *testing.T) {
 	if pr, err = c.Start(args...); err != nil {
 		t.Fatalf("INFRA: %v", err)
 	}
-	rc := waitOrStall(pr, 30*time.Second, 120*time.Second)
+	rc := waitOrStall(pr, 15*time.Second, 120*time.Second)
 	if lost := lostSubmissions(c.PsDir()); rc == -1 && len(lost) > 0 {
 		fmt.Printf("KNOWN-PRESENT C05/cluster-job-lost-when-killed-while-submitting: the restarted mrp waits for %v, which was never submitted: %s\n", lost, stats.Trunc(pr.Log(), 300))
 	}
